@@ -1,4 +1,5 @@
 //! C13: positional accessors of slice read items (region-backed and owned-borrowed) are exact and fail-stop.
+use crate::util::*;
 use flatcontainer::{IntoOwned, MirrorRegion, Push, Region, SliceRegion};
 
 const A: [u8; 3] = [10, 11, 12];
@@ -31,16 +32,32 @@ pub fn check_get_owned(n: usize, k: usize) {
     vassert!(v == A[k], "VF:slice_get_owned.value");
 }
 
-#[cfg(kani)]
-#[kani::proof]
-#[kani::unwind(5)]
-fn slice_get_oob() {
-    check_get(kani::any(), kani::any(), kani::any(), kani::any());
+fn run_get(v: &[u64]) {
+    check_get(v[0] as usize, v[1] as usize, v[2] as usize, v[3] as usize)
 }
+fn pre_get(v: &[u64]) -> bool {
+    v[0] <= 3 && v[1] <= 3 && v[2] < 2
+}
+fn doms_get() -> Vec<Vec<u64>> {
+    vec![range(4), range(4), range(2), crate::boundary()]
+}
+fn run_get_owned(v: &[u64]) {
+    check_get_owned(v[0] as usize, v[1] as usize)
+}
+fn pre_get_owned(v: &[u64]) -> bool {
+    v[0] <= 3
+}
+fn doms_get_owned() -> Vec<Vec<u64>> {
+    vec![range(4), crate::boundary()]
+}
+crate::kani_twin!(slice_get_oob, 4, pre_get, run_get, 5);
+crate::kani_twin!(slice_get_owned_oob, 2, pre_get_owned, run_get_owned, 5);
 
-#[cfg(kani)]
-#[kani::proof]
-#[kani::unwind(5)]
-fn slice_get_owned_oob() {
-    check_get_owned(kani::any(), kani::any());
+pub fn harnesses() -> Vec<crate::H> {
+    vec![
+        crate::H { name: "slice_get_oob", props: &["C13"], nargs: 4, pre: pre_get, doms: doms_get, run: run_get, panic_ok: true,
+            bound: "two adjacent items of length 0..3 in SliceRegion<MirrorRegion<u8>>, either item, any position (full usize under Kani)", kani: true },
+        crate::H { name: "slice_get_owned_oob", props: &["C13"], nargs: 2, pre: pre_get_owned, doms: doms_get_owned, run: run_get_owned, panic_ok: true,
+            bound: "owned-borrowed ReadSlice of length 0..3, any position (full usize under Kani)", kani: true },
+    ]
 }
